@@ -199,7 +199,7 @@ fn compress_case(rep: &Report, idx: usize, seed: u64) -> Option<String> {
         let hl = *rng.pick(&[4usize, 16, 64]);
         let mut spec = CompressSpec::new(cfg, comp, hl);
         spec.stdin = if rng.chance(1, 2) { Some(rng.next_u64() | 1) } else { None };
-        spec.force = rng.chance(1, 3);
+        spec.force = rng.chance(1, 3) || idx % 6 == 5;
         if rng.chance(1, 3) {
             spec.metadata_files.push(("m".into(), rng.bytes(100)));
         }
@@ -210,8 +210,20 @@ fn compress_case(rep: &Report, idx: usize, seed: u64) -> Option<String> {
         let out = odir.join(oname);
         let n = run.args.len();
         run.args[n - 1] = p(&out);
-        if spec.force && rng.chance(1, 2) {
-            std::fs::write(&out, b"previous").unwrap();
+        let mut rerun = false;
+        if spec.force && (rng.chance(1, 2) || idx % 6 == 5) {
+            if idx % 6 != 5 && rng.chance(1, 2) {
+                std::fs::write(&out, b"previous").unwrap();
+            } else {
+                // The output already holds exactly the archive this run will write: the same
+                // command has been run before (an idempotent re-run with --force-create).
+                let mut first = scn::compress_run(&dir, "a", &source, &spec).0;
+                let n1 = first.args.len();
+                first.args[n1 - 1] = p(&out);
+                first.use_shim = false;
+                let o1 = proc::run(&first);
+                rerun = o1.exit.ok();
+            }
         }
         let temp = scn::temp_path_of(&out);
         // The state an earlier failed or interrupted compress leaves behind: its temp file
@@ -297,6 +309,9 @@ fn compress_case(rep: &Report, idx: usize, seed: u64) -> Option<String> {
         }
         rep.count("compress.temp_unlinks_observed", unlinked_temp as u64);
         rep.count("compress.runs_judged", 1);
+        if rerun {
+            rep.count("compress.reruns_over_own_output", 1);
+        }
         rep.nontrivial(format!("compress:{}:{}:{}", spec.describe(), out.file_name().unwrap().to_string_lossy(), idx));
         Ok(())
     })();
